@@ -1,7 +1,6 @@
 #!/bin/sh
-# Offline setup: optional contract library beside the repo's interpreter + byte-check of the harness.
+# Offline setup: nothing is fetched or installed; the harness is pure stdlib + the repository's own interpreter (/venv).
 cd "$(dirname "$0")/.." || exit 1
-mkdir -p .deps .work evidence
-/venv/bin/pip install -q --no-index --find-links /opt/veriftools/wheels --target .deps icontract >/dev/null 2>&1 || echo "setup: icontract not installed (contracts disabled; checks do not depend on it)"
+mkdir -p .work evidence
 /venv/bin/python -m compileall -q hgmon >/dev/null || exit 1
 /venv/bin/python -c "import sys; sys.path.insert(0,'.'); import hgmon; hgmon.pin_repo(); print('setup ok')"
